@@ -1,7 +1,11 @@
 package props
 
 import (
+	"crypto/rand"
 	"fmt"
+	"github.com/taurusgroup/multi-party-sig/internal/types"
+	"github.com/taurusgroup/multi-party-sig/pkg/math/curve"
+	"github.com/taurusgroup/multi-party-sig/pkg/math/sample"
 	"math"
 	"runtime/debug"
 	"strings"
@@ -72,7 +76,6 @@ var badThresholds = func(n int) []int {
 	return []int{-1, n, n + 1, math.MaxUint32, math.MaxUint32 + 1}
 }
 
-
 // agedMaterial: start-time validation must not depend on the key being fresh - in half of the cases
 // the material has been through a derivation or a refresh (which must carry threshold, tables and
 // identifiers over unchanged).
@@ -103,13 +106,20 @@ func runC20(c *fw.Ctx) {
 		fam = c.S.Draw(2, "family2")
 	}
 	var bc *badCase
+	if c.S.Draw(12, "presignature-family") == 11 {
+		// invalid presignatures handed to cmp.PresignOnline (start-time validation needs no genuine
+		// presign session: the tables are well-formed hand-made ones, damaged in one respect)
+		fam = 3
+	}
 	switch fam {
+	case 3:
+		bc = badCMP(c, true)
 	case 0:
 		bc = badFrost(c)
 	case 1:
 		bc = badDoerner(c)
 	default:
-		bc = badCMP(c)
+		bc = badCMP(c, false)
 	}
 	if bc == nil {
 		return
@@ -540,13 +550,16 @@ func badDoerner(c *fw.Ctx) *badCase {
 
 // ---------------- CMP ----------------
 
-func badCMP(c *fw.Ctx) *badCase {
+func badCMP(c *fw.Ctx, presigOnly bool) *badCase {
 	n := 2 + c.S.Draw(2, "n")
 	t := c.S.Draw(n, "t")
 	ids := scen.DrawIDs(c.S, n)
 	sid := []byte(c.Label("sid"))
 	scen.InstallPrimes(c)
 	kind := c.S.Draw(6, "fn") // keygen refresh sign presign presign-full online
+	if presigOnly {
+		kind = 5
+	}
 	bc := &badCase{mk: map[party.ID]scen.Mk{}}
 	if kind == 0 {
 		bc.fn = "cmp.Keygen"
@@ -643,15 +656,33 @@ func badCMP(c *fw.Ctx) *badCase {
 	}
 	if kind == 5 {
 		bc.fn = "cmp.PresignOnline"
-		classes = append(append([]string{"presignature-nil", "presignature-empty", "presignature-stripped-entry", "presignature-zero-share"}, cfgClasses[:2]...), msgClasses...)
+		classes = append(append([]string{"presignature-nil", "presignature-empty", "presignature-stripped-entry", "presignature-zero-share",
+			"presignature-s-entry-under-foreign-key", "presignature-rbar-entry-under-foreign-key", "presignature-s-entry-missing", "presignature-identity-entry"}, cfgClasses[:2]...), msgClasses...)
 		bc.class = classes[c.S.Draw(len(classes), "class")]
-		// a genuine presignature to strip
-		ps := scen.NewSession(c, "prep-presign", m.Clone().PresignMk(signers, []byte(c.Label("sid", "pp"))), nil)
-		ps.Net.Policy = sim.FIFO{}
-		ps.Net.Run()
-		vals, errs := ps.Results()
-		if len(errs) > 0 {
-			scen.Fatalf("C20: prerequisite presign failed: %v", errs)
+		vals := map[party.ID]interface{}{}
+		if presigOnly {
+			bc.class = classes[c.S.Draw(8, "presig-class")]
+			rid, _ := types.NewRID(rand.Reader)
+			R := sample.Scalar(rand.Reader, scen.Group).ActOnBase()
+			rbar, sp := map[party.ID]curve.Point{}, map[party.ID]curve.Point{}
+			for _, id := range signers {
+				rbar[id] = sample.Scalar(rand.Reader, scen.Group).ActOnBase()
+				sp[id] = sample.Scalar(rand.Reader, scen.Group).ActOnBase()
+			}
+			for _, id := range signers {
+				vals[id] = &ecdsa.PreSignature{ID: rid, R: R, RBar: party.NewPointMap(rbar), S: party.NewPointMap(sp),
+					KShare: sample.Scalar(rand.Reader, scen.Group), ChiShare: sample.Scalar(rand.Reader, scen.Group)}
+			}
+		} else {
+			// a genuine presignature to strip
+			ps := scen.NewSession(c, "prep-presign", m.Clone().PresignMk(signers, []byte(c.Label("sid", "pp"))), nil)
+			ps.Net.Policy = sim.FIFO{}
+			ps.Net.Run()
+			var errs map[party.ID]error
+			vals, errs = ps.Results()
+			if len(errs) > 0 {
+				scen.Fatalf("C20: prerequisite presign failed: %v", errs)
+			}
 		}
 		for _, id := range signers {
 			cfg := m.Cfg[id].(*cmp.Config)
@@ -675,6 +706,36 @@ func badCMP(c *fw.Ctx) *badCase {
 				case "presignature-zero-share":
 					cp := *pre
 					cp.KShare = scen.Group.NewScalar()
+					p = &cp
+				case "presignature-s-entry-under-foreign-key", "presignature-rbar-entry-under-foreign-key", "presignature-s-entry-missing", "presignature-identity-entry":
+					// the tables must be keyed by exactly the signers: one signer's entry is moved under a
+					// stranger's identifier (same size, every value a valid point), dropped, or the identity
+					cp := *pre
+					victim := signers[len(signers)-1]
+					if victim == id && len(signers) > 1 {
+						victim = signers[0]
+					}
+					clone := func(pm *party.PointMap) map[party.ID]curve.Point {
+						o := map[party.ID]curve.Point{}
+						for k, v := range pm.Points {
+							o[k] = v
+						}
+						return o
+					}
+					sp, rp := clone(pre.S), clone(pre.RBar)
+					switch bc.class {
+					case "presignature-s-entry-under-foreign-key":
+						sp[foreignID] = sp[victim]
+						delete(sp, victim)
+					case "presignature-rbar-entry-under-foreign-key":
+						rp[foreignID] = rp[victim]
+						delete(rp, victim)
+					case "presignature-s-entry-missing":
+						delete(sp, victim)
+					case "presignature-identity-entry":
+						sp[victim] = scen.Group.NewPoint()
+					}
+					cp.S, cp.RBar = party.NewPointMap(sp), party.NewPointMap(rp)
 					p = &cp
 				}
 				return protocol.NewMultiHandler(cmp.PresignOnline(stripped(cfg, bc.class), p, mm, nil), sid)
